@@ -11,7 +11,7 @@ META = {
                  "precondition for tick counts); R17.2 in add_time_offset every throw precedes every member write; R17.3 "
                  "operator< / operator<= evaluated over the 3x3 order abstraction of (secs, ticks) equal the lexicographic "
                  "order / its reflexive closure; R17.4 in the four add_* overloads that store a time the earliest-time update "
-                 "(first record or ts < earliest) precedes the store, clear() resets it and the writer subtracts that member.",
+                 "(first record or ts < earliest) precedes the store, clear() resets it and the writer subtracts that member. R17.3 also requires that no helper on the way to a comparison converts a 64-bit quantity to a narrower type implicitly.",
     "explanation": "Range analysis, a finite order-abstraction table and ordering rules. Exactness of the tick difference and of "
                    "carry/borrow for all rates is numeric residue and is not decided.",
     "trusted_base": ["clang 14 AST and constant evaluation"],
